@@ -24,7 +24,7 @@ func Ops() []*core.Op {
 	return []*core.Op{
 		{
 			Name: "c16.expiration",
-			Doc:  "nodeclaim/expiration Controller.Reconcile on the fake client: one NodeClaim x expireAfter x fake clock around creation+expireAfter x Delete outcome; observes Delete calls, RequeueAfter, error",
+			Doc:  "nodeclaim/expiration Controller.Reconcile on the fake client: one NodeClaim x expireAfter x fake clock around creation+expireAfter x Delete outcome, inside a varied FRAME (spec.terminationGracePeriod, status conditions and their transition times, owning NodePool with its own expireAfter / terminationGracePeriod, termination-timestamp and do-not-disrupt annotations, lastPodEventTime, a present / terminating Node with pods) with the clock also placed relative to every frame duration (creation+expireAfter-x, inside [creation+expireAfter-x, creation+expireAfter), creation+x); observes Delete calls, RequeueAfter, error",
 			N:    nq(3000, 40000),
 			Gen:  genExp,
 			Enum: enumExp,
@@ -37,7 +37,8 @@ func Ops() []*core.Op {
 			},
 			Labels:         expLabels,
 			Signature:      func(json.RawMessage, any) string { return "expiration" },
-			ExhaustiveNote: "managed x deleting x {Never,0,1h} x clock at edge {-1s,-1ns,0,+1ns,+1s} x Delete outcome {ok,notfound,err}",
+			Shrink:         expShrink,
+			ExhaustiveNote: "managed x deleting x {Never,0,1h} x clock at edge {-1s,-1ns,0,+1ns,+1s} x Delete outcome {ok,notfound,err}; managed, not deleting: {Never,1h} x terminationGracePeriod {0,1ns,10m,1h,2h} x NodePool {none, same, shorter expireAfter} x clock at {creation+expireAfter, creation+expireAfter-terminationGracePeriod, creation+1min} + edge x Delete outcome",
 		},
 		{
 			Name:       "c16.gc",
